@@ -8,6 +8,9 @@
     comboRegime       (*Combo).ValidateWithContext     per-combo country override
     validateExt       tax.Extensions.Validate          global registry lookup, allowed codes, pattern
     tagsIn            tax.TagsIn / supportedTags       regime ∪ active addons, per document type
+                                                       (applied by bill.Invoice only: `validateDocTags`)
+    pricesInclude     (*bill.Tax).ValidateWithContext  `prices_include` ∈ the document regime's categories
+    validateTotal     tax.Total / CategoryTotal / RateTotal .Validate   `ext` of every rate of a stored summary
     addonRegistered   tax.AddonRegistered
     currencyKnown     currency.Code validation         code ∈ definitions
     countryKnown      l10n code validation             code ∈ published code list
@@ -197,8 +200,17 @@ def validateCombo (d : Defs) (pm : PatternMatch) (docRegime : Option Regime) (c 
   let r := comboRegime d docRegime c
   c.category != "" && inCategories r c.category && inCategoryRates r c.category c.rate && validateExt d pm c.ext
 
-/-- `supportedTags`: the regime's tag set for the document type merged with those of the
-    addons in use -/
+/-- the document types that carry `$tags` (they embed `tax.Tags`) -/
+def taggedSchemas : List String := ["bill/invoice", "bill/order", "bill/delivery", "bill/payment"]
+
+/-- the document types whose `ValidateWithContext` compares `$tags` with
+    `tax.TagsIn(supportedTags()…)`: bill.Invoice only.  Order and Payment have no rule for
+    the field, Delivery validates the embedded `tax.Tags` struct, which has no rules of its
+    own (`Generated/RefsFacts.lean` pins this for the four files) -/
+def tagCheckedSchemas : List String := ["bill/invoice"]
+
+/-- `(*Invoice).supportedTags`, for any document type: the regime's tag set for the
+    document type merged with those of the addons in use -/
 def supportedTags (docRegime : Option Regime) (addons : List Addon) (schema : String) : List String :=
   (match docRegime with | none => [] | some r => tagKeysFor r.tags schema) ++
   addons.flatMap (fun a => tagKeysFor a.tags schema)
@@ -206,6 +218,45 @@ def supportedTags (docRegime : Option Regime) (addons : List Addon) (schema : St
 /-- `tax.TagsIn(supportedTags…)` -/
 def validateTags (docRegime : Option Regime) (addons : List Addon) (schema : String) (tags : List String) : Bool :=
   tags.all fun t => (supportedTags docRegime addons schema).contains t
+
+/-- the `$tags` field as the four documents validate it: the `TagsIn` rule where it is
+    applied (`tagCheckedSchemas`), nothing (beyond the key syntax, C11's business) elsewhere -/
+def validateDocTags (docRegime : Option Regime) (addons : List Addon) (schema : String) (tags : List String) : Bool :=
+  if tagCheckedSchemas.contains schema then validateTags docRegime addons schema tags else true
+
+/-- `(*bill.Tax).ValidateWithContext`, the reference rule of `prices_include`: with the
+    document's regime in the validation context the code is blank (`validation.In` passes
+    an empty value) or one of the regime's categories (`RegimeDef.InCategories`); without a
+    regime the rule is not added and only the code's syntax is checked (C11's business) -/
+def validatePricesInclude (docRegime : Option Regime) (cat : String) : Bool :=
+  match docRegime with
+  | none => true
+  | some r => cat == "" || r.categories.any (·.code == cat)
+
+/-! ### stored tax summaries (`tax.Total` under `preceding[*].tax`, a payment's `tax`,
+    `lines[*].document.tax`, and the calculated `totals.taxes`) -/
+
+structure RateTotal where
+  key     : String
+  country : String
+  ext     : List (String × String)
+deriving DecidableEq, Repr, Inhabited
+
+structure CategoryTotal where
+  code  : String
+  rates : List RateTotal
+deriving DecidableEq, Repr, Inhabited
+
+/-- `(*RateTotal).Validate`: `validation.Field(&rt.Ext)` → `Extensions.Validate` -/
+def validateRateTotal (d : Defs) (pm : PatternMatch) (rt : RateTotal) : Bool := validateExt d pm rt.ext
+
+/-- `(*CategoryTotal).Validate`: every rate -/
+def validateCategoryTotal (d : Defs) (pm : PatternMatch) (ct : CategoryTotal) : Bool :=
+  ct.rates.all (validateRateTotal d pm)
+
+/-- `(*Total).Validate`: every category (a nil total, i.e. no summary, is valid) -/
+def validateTotal (d : Defs) (pm : PatternMatch) (cats : List CategoryTotal) : Bool :=
+  cats.all (validateCategoryTotal d pm)
 
 /-- `Addons.Validate`: each key `AddonRegistered` -/
 def validateAddons (d : Defs) (keys : List String) : Bool :=
